@@ -130,8 +130,12 @@ _PURE_METHODS = {
 }
 
 import math as _math
+import re as _re
 _MATH = {"math." + n: getattr(_math, n) for n in (
     "floor", "ceil", "trunc", "copysign", "fabs", "isclose")}
+# pure functions of the standard library on strings
+_MATH.update({"re." + n: getattr(_re, n) for n in (
+    "findall", "split", "sub")})
 
 OPCODE_CLASS = "ebpfcat.ebpf.Opcode"
 
